@@ -49,7 +49,9 @@ Definition judge (c o : sexp) : verdict :=
           else if String.eqb op "resolve" then
             raw <- (x <- get "raw" o ;; dec_list dec_N x) ;;
             d <- draws (resolve_bounds t) raw ;;
-            Some (Ok (resolve t (fst d)), (if in_dom then resolve_ok t g else basic_ok t g), "resolve")
+            Some (Ok (resolve t (fst d)),
+                  (if in_dom then resolve_ok t g
+                   else if wf t && Nat.leb 2 (degree t) then resolve_ok_single t g else basic_ok t g), "resolve")
           else None in
       match mo with
       | None => VBad "bad case"
